@@ -71,6 +71,17 @@ pub fn concurent_immix_mutator_prepare<VM: VMBinding>(
     .unwrap();
     immix_allocator.reset();
 
+    // Also retire the thread-local buffer of the non-moving Immix allocator.  Memory acquired
+    // while marking is in progress is allocated as live (see `ImmixAllocator::acquire_*`), but a
+    // buffer acquired before this pause is not, so objects bump-allocated into it during
+    // concurrent marking would be neither marked nor on marked lines.
+    #[cfg(not(any(feature = "marksweep_as_nonmoving", feature = "immortal_as_nonmoving")))]
+    unsafe {
+        mutator
+            .allocator_impl_mut_for_semantic::<ImmixAllocator<VM>>(AllocationSemantics::NonMoving)
+    }
+    .reset();
+
     // Activate SATB
     if current_pause == Pause::InitialMark {
         debug!("Activate SATB barrier active for {:?}", mutator as *mut _);
